@@ -29,7 +29,7 @@ CHECKS['C18'] = dict(
     exhaustive={'quick': True, 'thorough': True},
     stages=[
         dict(name='rcp', harness=H('c18', ['harness/c18_reciprocal.cpp']),
-             plan={'quick': 'rcp=2000000,rcp_run=4000,noop_decode=200000,rcp_exhaustive=all', 'thorough': 'rcp=20000000,rcp_run=40000,noop_decode=2000000,rcp_exhaustive=all'}),
+             plan={'quick': 'rcp=2000000,rcp_run=4000,noop_decode=200000,rcp_exhaustive=all', 'thorough': 'rcp=50000000,rcp_run=100000,noop_decode=5000000,rcp_exhaustive=all'}),
     ],
 )
 
@@ -44,9 +44,9 @@ CHECKS['C11'] = dict(
     stages=[
         dict(name='blake', harness=H('c11', ['harness/c11_blake2b.cpp'], model=True), env={'VERIF_CASE_TIMEOUT': '1200'}, replay_timeout=1800,
              plan={'quick': 'oneshot=120000,stream=120000,counter=40000,invalid=40000,commitment=40000,bigshot=2',
-                   'thorough': 'oneshot=3000000,stream=3000000,counter=1000000,invalid=400000,commitment=1000000,bigstream=16,bigshot=16'}),
+                   'thorough': 'oneshot=8000000,stream=8000000,counter=3000000,invalid=400000,commitment=3000000,bigstream=16,bigshot=16'}),
         dict(name='fuzz', kind='fuzz', target='blake2b', harness=H('fz_blake2b', ['fuzz/fuzz_blake2b.cpp'], variant='fuzz', model=True), max_len=2048,
-             runs={'quick': 480000, 'thorough': 16000000}),
+             runs={'quick': 480000, 'thorough': 40000000}),
     ],
 )
 
@@ -61,9 +61,9 @@ CHECKS['C12'] = dict(
     stages=[
         dict(name='aes', harness=H('c12', ['harness/c12_aes.cpp'], model=True),
              plan={'quick': 'tables=1,round=400000,gen=12000,hash=12000,gen_big=32,hash_big=32',
-                   'thorough': 'tables=1,round=20000000,gen=400000,hash=400000,gen_big=2000,hash_big=2000'}),
+                   'thorough': 'tables=1,round=50000000,gen=1000000,hash=1000000,gen_big=4000,hash_big=4000'}),
         dict(name='fuzz', kind='fuzz', target='aes', harness=H('fz_aes', ['fuzz/fuzz_aes.cpp'], variant='fuzz', model=True), max_len=600,
-             runs={'quick': 80000, 'thorough': 4000000}),
+             runs={'quick': 80000, 'thorough': 10000000}),
     ],
 )
 
@@ -148,7 +148,7 @@ CHECKS['C09'] = dict(
     assumptions=COMMON_ASSUME + ['model/ref_superscalar.cpp: the generator details specs.md 6.3 leaves open (draw order, look-ahead 4, throw-away limit 256) are pinned to upstream; validated by the 10 published digests'],
     stages=[
         dict(name='keys', harness=H('c09', ['harness/c09_superscalar.cpp'], model=True),
-             plan={'quick': 'keys=16000', 'thorough': 'keys=800000'}),
+             plan={'quick': 'keys=16000', 'thorough': 'keys=2000000'}),
     ],
 )
 
@@ -162,7 +162,7 @@ CHECKS['C10'] = dict(
     assumptions=COMMON_ASSUME + ['model/ref_argon2.cpp is a correct reading of RFC 9106 (self-tested against the RFC Argon2d vector incl. secret, associated data, 4 lanes and finalisation)'],
     stages=[
         dict(name='argon', harness=H('c10', ['harness/c10_argon2.cpp'], model=True),
-             plan={'quick': 'reduced=1600,full=16', 'thorough': 'reduced=100000,full=192'}),
+             plan={'quick': 'reduced=1600,full=16', 'thorough': 'reduced=200000,full=256'}),
     ],
 )
 
@@ -177,7 +177,7 @@ CHECKS['C08'] = dict(
     assumptions=COMMON_ASSUME + ['model/ref_superscalar.cpp + ref_argon2.cpp as reading of specs.md ch.6-7 (validated by the published digests)', 'page-granular detection of stray stores outside opened pages, byte-granular inside them'],
     stages=[
         dict(name='ranges', harness=H('c08', ['harness/c08_dataset.cpp'], model=True),
-             plan={'quick': 'ranges=3000', 'thorough': 'ranges=60000,full=all'}),
+             plan={'quick': 'ranges=3000', 'thorough': 'ranges=150000,full=all'}),
     ],
 )
 
@@ -233,7 +233,7 @@ CHECKS['C13'] = dict(
     assumptions=COMMON_ASSUME + ['MXCSR read with stmxcsr immediately around the call; the harness does no floating-point work while exceptions are unmasked'],
     stages=[
         dict(name='fpenv', harness=H('c13', ['harness/c13_fpenv.cpp']),
-             plan={'quick': 'fpenv=640', 'thorough': 'fpenv=12000'}),
+             plan={'quick': 'fpenv=640', 'thorough': 'fpenv=30000'}),
     ],
 )
 
